@@ -5,6 +5,7 @@
     strand it reports, name, moltype, info, the gap mask of an aligned row). *)
 From CG3 Require Import Lib.PyZ Lib.PySlice Model.View Spec.ViewSpec Model.Serial.
 From CG3 Require Model.IndelMap Spec.IndelMapSpec.
+From CG3 Require Lib.Rose Model.Tree Proofs.NewickMoreProofs.
 
 (** strand as [parent_coordinates()] reports it; an empty sequence has no
     residue on either strand, so the strand of an empty view is not observed
@@ -53,13 +54,30 @@ Definition reachable_core (st : style) (c : pseq) : Prop :=
     [coerce_str] turns U into T for DNA and T into U for RNA at construction) *)
 Definition clean (k : kind) (p : list Z) : Prop := Forall (fun x => coerce_char k x = x) p.
 
+(** what is observed of a table: index, attributes, and per column name and cells.  The numpy dtype string is
+    book-keeping; it is observed separately ([table_dtypes]) because the code does not keep it for text columns *)
+Definition observe_table (t : table) : option (list Z) * dict * list (list Z * list json) :=
+  (t_index t, t_attrs t, map (fun c => (c_name c, c_values c)) (t_cols t)).
+
+Definition table_dtypes (t : table) : list (list Z) := map c_dtype (t_cols t).
+
+(** no text column: every dtype string reads back as itself *)
+Definition dtypes_stable (t : table) : bool := forallb (fun c => zeqb (redtype (c_dtype c)) (c_dtype c)) (t_cols t).
+
 (** observation of any modelled object *)
 Inductive observation :=
 | ObsView (o : list Z * Z * Z * Z)
 | ObsSeq (st : style) (o : (list Z * Z * (Z * Z * Z) * kind) * option (list Z) * dict)
 | ObsImap (m : IndelMap.imap) (mask : list bool)
 | ObsAligned (o : list Z * IndelMap.imap * ((list Z * Z * (Z * Z * Z) * kind) * option (list Z) * dict))
-| ObsAlignment (k : kind) (info : dict) (rows : list (list Z * IndelMap.imap * ((list Z * Z * (Z * Z * Z) * kind) * option (list Z) * dict))).
+| ObsAlignment (k : kind) (info : dict) (rows : list (list Z * IndelMap.imap * ((list Z * Z * (Z * Z * Z) * kind) * option (list Z) * dict)))
+(* for the field-copying serialisers everything the model keeps is observed: topology, names and lengths of a
+   tree; index, attributes, column order, names and cells of a table; names and array of a dict array;
+   constructor arguments of a NotCompleted *)
+| ObsTree (t : Rose.tree)
+| ObsTable (o : option (list Z) * dict * list (list Z * list json))
+| ObsDarr (a : darr)
+| ObsNC (n : notcompleted).
 
 Definition observe (x : obj) : observation :=
   match x with
@@ -68,12 +86,38 @@ Definition observe (x : obj) : observation :=
   | OImap m => ObsImap m (IndelMapSpec.abs m)
   | OAligned a => ObsAligned (observe_aligned a)
   | OAlignment k inf rows => ObsAlignment k inf (map observe_aligned rows)
+  | OTree t => ObsTree t
+  | OTable t => ObsTable (observe_table t)
+  | ODarr a => ObsDarr a
+  | ONotCompleted n => ObsNC n
   end.
 
 (** the objects the round-trip theorem covers: well-formed views that fit their parent,
     strings in their moltype's spelling, well-formed gap maps *)
 Definition seq_ok (s : seqobj) : Prop := SWF (s_core s) /\ clean (skind (s_core s)) (parent (s_core s)).
 Definition aligned_ok (a : aligned) : Prop := IndelMapSpec.WF (a_map a) /\ seq_ok (a_seq a).
+
+(** tables as [Columns] keeps them: names stripped and pairwise distinct, cells scalars, one common
+    number of rows; the index column (if any) exists and holds unique values *)
+Fixpoint cols_okb (cs : list column) (n : Z) (seen : list (list Z)) : bool :=
+  match cs with
+  | [] => true
+  | c :: r => stripped (c_name c) && negb (mem_str (c_name c) seen) && forallb is_scalar (c_values c)
+              && (zlen (c_values c) =? n) && cols_okb r n (c_name c :: seen)
+  end.
+
+Definition nrows_of (cs : list column) : Z := match cs with c :: _ => zlen (c_values c) | [] => 0 end.
+
+Definition table_okb (t : table) : bool :=
+  cols_okb (t_cols t) (nrows_of (t_cols t)) []
+  && match check_index (t_index t) (t_cols t) with Ok _ => true | Err _ => false end.
+
+(** a dict array whose array is as long in every dimension as that dimension has names *)
+Definition darr_okb (a : darr) : bool := check_shape (d_names a) (d_array a) 0.
+
+(** what the constructor accepts: three positional arguments, at most the keyword "source" *)
+Definition nc_okb (n : notcompleted) : bool :=
+  (zlen (nc_args n) =? 3) && forallb (fun kv => zeqb (fst kv) k_source) (nc_kwargs n).
 
 Definition obj_ok (x : obj) : Prop :=
   match x with
@@ -82,4 +126,8 @@ Definition obj_ok (x : obj) : Prop :=
   | OImap m => IndelMapSpec.WF m
   | OAligned a => aligned_ok a
   | OAlignment _ _ rows => Forall aligned_ok rows
+  | OTree t => NewickMoreProofs.rt_ok_json t = true          (* the name guard of C09 *)
+  | OTable t => table_okb t = true
+  | ODarr a => darr_okb a = true
+  | ONotCompleted n => nc_okb n = true
   end.
